@@ -13,6 +13,10 @@ EXPLANATION = (
 NOT_DECIDED = "what the sockets do; liveness of entries between service calls"
 
 
+def _own(C, name):
+    return any(isinstance(b, ast.FunctionDef) and b.name == name for b in C.node.body)
+
+
 def check(ctx):
     ctx.rule("T4-ixes", "writers of .ixes / .cxes")
     ctx.rule("T1-replace", "ixes[k] = v preceded by: if k in ixes and ixes[k] is not v: shutdownIx(k)")
@@ -68,7 +72,8 @@ def check(ctx):
     for n, c in R.attr_calls(("shutclose", "close")):
         if n not in closes:
             closes.append(n)
-    dels = [n for n in R.cfg.nodes if isinstance(n.ast, ast.Delete) and "self.ixes" in src(n.ast)] + R.call_nodes(("self.ixes.pop",))
+    dels = [n for n in R.cfg.nodes if isinstance(n.ast, ast.Delete) and
+            any("self.ixes" in src(R.sym(tg, n)) for tg in n.ast.targets)] + R.call_nodes(("self.ixes.pop",))
     ok = bool(t) and bool(closes) and bool(dels)
     if ok:
         ok = R.dominated_by_edge(closes, t[0], "T") and R.cfg.always_reaches(
@@ -99,6 +104,40 @@ def check(ctx):
                   "%s.shutclose: self.cs.close() precedes `self.cs = None` on every path (a shutdown() that raises included)" % cn,
                   "when the peer is already gone the socket shutdown raises; if that skips close(), the entry leaves the table "
                   "while its socket is never closed")
+    # teardown of an entry that is already closed (closeIx leaves it in the table with cs None) must be a no-op, not an error
+    ctx.rule("T2-closed", "Incomer teardown methods touch self.cs only under `if self.cs` (or every caller holds that guard)")
+    k = 0
+    smod = ctx.repo.mod("tcp.serving")
+    ctx.consulted.add(smod.relpath)
+    allfns = [fn for c in smod.tree.body if isinstance(c, ast.ClassDef) for fn in c.body if isinstance(fn, ast.FunctionDef)]
+    for cn in ("Incomer", "IncomerTls"):
+        C = ctx.cls("tcp.serving", cn)
+        for mn in ("shutdown", "shutdownSend", "shutdownReceive", "shutclose", "close"):
+            if not _own(C, mn):
+                continue
+            m = C.methods[mn]
+            K = FuncView(ctx, m, exc="calls")
+            for n in K.cfg.nodes:
+                for c in K.cfg.walk_node(n):
+                    if not (isinstance(c, ast.Call) and isinstance(c.func, ast.Attribute) and src(K.sym(c.func.value, n)) == "self.cs"):
+                        continue
+                    k += 1
+                    ok = bool({"self.cs", "self.cs is not None"} & K.symfacts(n))
+                    if not ok:      # guard held by every caller instead?
+                        sites = [(f2, x) for f2 in allfns for x in ast.walk(f2) if isinstance(x, ast.Call) and
+                                 isinstance(x.func, ast.Attribute) and x.func.attr == mn and
+                                 not src(x.func.value).endswith((".cs", ".ss")) and src(x.func.value) not in ("cs", "ss", "super()")]
+                        ok = bool(sites)
+                        for f2, x in sites:
+                            V2 = FuncView(ctx, f2, exc="calls")
+                            nn = [q for q in V2.cfg.nodes if any(y is x for y in V2.cfg.walk_node(q))]
+                            recv = src(x.func.value)
+                            ok = ok and bool(nn) and bool({recv + ".cs", recv + ".cs is not None"} & V2.symfacts(nn[0]))
+                    ctx.check(ok, "T2-closed", c, "%s.%s: %s only while the entry still has a socket" % (cn, mn, src(c)[:40]),
+                              "an entry closed earlier (closeIx sets cs None but leaves it in the table) is torn down again when its address "
+                              "re-connects or it is removed: the unguarded socket call raises AttributeError, the accept pass aborts, the "
+                              "stale entry stays and the new connection is dropped")
+    ctx.floor("T2-closed:sites", k, 3)
     S = ctx.cls("tcp.serving", "Server")
     T = ctx.cls("tcp.serving", "ServerTls")
     entries = [S.methods[m] for m in ("serviceAxes", "removeIx", "shutdownIx", "closeIx", "closeAllIx", "serviceConnects")] + \
